@@ -522,6 +522,22 @@ def oracle_c15(c, a, b):
         piece0 = halves[0].split(" ; ")[0]
         if wire is not None and len(wire) < 7000 and piece0.startswith("ret=-1"):
             return "%s refused a record text the grammar accepts and whose record fits (%d characters of text, %d bytes of record): %s" % (first[0], len(first[1]) // 2, len(wire), piece0)
+    # set_raw_name / set_name through the table, judged on the first operation of a script over a small packet: a well-formed
+    # pointer-free raw name is installed; a fully-qualified host name is installed whatever the zone slice holds
+    if len(first) >= 5 and first[0] == "iter" and len(w[1]) // 2 < 600:
+        piece0 = halves[0].split(" ; ")[0]
+        if first[3] == "setrawname":
+            raw = _hex(first[4])
+            try:
+                wf = len(raw) >= 1 and refdec.wf_name(raw, 0, allow_ptr=False) == len(raw)
+            except (refdec.IllFormed, IndexError):
+                wf = False
+            if wf and "n=0" not in piece0 and "ret=-1" in piece0:
+                return "set_raw_name refused a well-formed pointer-free name (%d bytes): %s" % (len(raw), piece0)
+        if first[3] == "setname" and len(first) >= 6:
+            txt = _hex(first[4])
+            if txt.endswith(b".") and len(txt) > 1 and len(txt) <= 253 and re.fullmatch(rb"([A-Za-z0-9_-]{1,62}\.)+", txt) and "n=0" not in piece0 and "ret=-1" in piece0:
+                return "set_name refused a fully-qualified host name (the default zone plays no part for it): %s" % piece0
     for m in re.finditer(r"ip=([0-9a-f]*)/(\d+)", halves[0]):
         n = int(m.group(2))
         if n not in (4, 16) or len(m.group(1)) != 2 * n:
